@@ -19,7 +19,7 @@ open ExprModel Node
 theorem node_fields_as_modelled : ∀ k : NK, Gen.nodeFields k = (refSlots k).map Slot.erase := by
   intro k; cases k <;> decide
 
-/-- **Table completeness.** For every node kind, the child slots `walker.walk` walks are exactly the
+/-- **WalkTable completeness.** For every node kind, the child slots `walker.walk` walks are exactly the
     `Node` / `[]Node` fields of the struct, in declaration order (a slice field is ranged over). -/
 theorem walk_table_complete : ∀ k : NK, (Gen.walkTargets k).map Slot.erase = Gen.nodeFields k := by
   intro k; cases k <;> decide
@@ -219,7 +219,7 @@ theorem patch_copies_meta (old new : Node) :
 /-! ### completeness of the table is necessary -/
 
 /-- the walker's table as it stood with the defect: `SliceNode.Node` is not walked -/
-def sliceNodeDropped : Table := fun k =>
+def sliceNodeDropped : WalkTable := fun k =>
   if k = .SliceNode then [⟨.fFrom, .optional⟩, ⟨.fTo, .optional⟩] else refSlots k
 
 def enteredNames (evs : List Event) : List String :=
